@@ -109,22 +109,21 @@ package progress
 //@     s.failedIterationDurations.lifetime.sum + s.failedIterationDurations.running.sum == SumF &&
 //@     mergedMin(s.failedIterationDurations.lifetime.min, s.failedIterationDurations.running.min) == MinF &&
 //@     max(s.failedIterationDurations.lifetime.max, s.failedIterationDurations.running.max) == MaxF &&
-//@     s.droppedIterationCount == NrecD && NrecD >= 0
+//@     s.droppedIterationCount == NrecD && NrecD >= 0 && NrecD <= 18446744073709551615
 //@
 //@ func (*Stats).Record
 //@   props C17 C01
 //@   requires tracks(s)
 //@   requires (result == "success" || result == "fail") ==> nanoseconds > 0
-//@   requires NrecD < 18446744073709551615
 //@   modifies s.successfulIterationDurations.running, s.failedIterationDurations.running, s.droppedIterationCount,
 //@            NrecS, NrecF, NrecD, SumS, SumF, MinS, MinF, MaxS, MaxF
 //@   ghost before call (*DurationStats).Record #0 : NrecS = NrecS + 1 ; SumS = SumS + nanoseconds ; MinS = (MinS == 0 ? nanoseconds : min(MinS, nanoseconds)) ; MaxS = max(MaxS, nanoseconds)
 //@   ghost before call (*DurationStats).Record #1 : NrecF = NrecF + 1 ; SumF = SumF + nanoseconds ; MinF = (MinF == 0 ? nanoseconds : min(MinF, nanoseconds)) ; MaxF = max(MaxF, nanoseconds)
-//@   ghost before call (*Uint64).Add #0 : NrecD = NrecD + 1
+//@   ghost before call (*Uint64).Add #0 : NrecD = (NrecD + 1) % 18446744073709551616
 //@   ensures [tracks] tracks(s)
 //@   ensures [succ] NrecS == old(NrecS) + (result == "success" ? 1 : 0)
 //@   ensures [fail] NrecF == old(NrecF) + (result == "fail" ? 1 : 0)
-//@   ensures [drop] NrecD == old(NrecD) + (result == "dropped" ? 1 : 0)
+//@   ensures [drop] NrecD == (result == "dropped" ? (old(NrecD) + 1) % 18446744073709551616 : old(NrecD))
 //@   ensures [period] s.successfulIterationDurations.running.count == old(s.successfulIterationDurations.running.count) + (result == "success" ? 1 : 0)
 //@
 //@ func (*Stats).Snapshot
